@@ -179,6 +179,11 @@ b = a + 1
 a + b`, `(begin (set a 1) (set b (+ a 1)) (+ a b))`},
 	{`k = 0; s = 0; for k = range v { s += k }; s + k`, `(begin (set k 0) (set s 0) (for [(def q 0) (< q (len v)) (set q (+ q 1))] (set k q) (set s (+ s k))) (+ s k))`},
 	{`k = 0; x = 0; s = 0; for k, x = range v { s += x }; s + k`, `(begin (set k 0) (set x 0) (set s 0) (for [(def q 0) (< q (len v)) (set q (+ q 1))] (set k q) (set x (aget v q)) (set s (+ s x))) (+ s k))`},
+	{`a = 1; b = a + 1; nil`, `(begin (set a 1) (set b (+ a 1)) nil)`},
+	{`a = 7; nil; a`, `(begin (set a 7) nil a)`},
+	{`c = nil; c`, `(begin (set c nil) c)`},
+	{`a = 1; true`, `(begin (set a 1) true)`},
+	{`a = 1; false`, `(begin (set a 1) false)`},
 	{`a++; a`, `(begin (set a (+ a 1)) a)`},
 	{`a--; a -= 2; a`, `(begin (set a (- a 1)) (set a (- a 2)) a)`},
 }
@@ -215,7 +220,7 @@ func init() {
 		Level: "exploration",
 		Rule: "every alternating sequence operand (op operand)^n: n=1 over 27 operands x 19 binary operators x 4 spacings; n=2 over 6 operands x 19^2 operators x 16 spacings; n=3 over 3 operands x 11^3 level-representative operators in 2 uniform spacings (thorough: 5 operands, 4 uniform spacings, n=4 over 2 operands x 11^4); " +
 			"postfix ++/--, statement lists with ; / newline / blank separators; the expansion printed by (infixExpand {...}) must equal an independent tokeniser + precedence-climbing parse (R3), and the block's value and effects must equal those of the prefix form; " +
-			"22 go-style for/if/assignment programs (incl. a label as the first thing of a block after a comment) x 3 layouts against hand-written prefix programs; 6 statements at every offset 0..64 of the text; distinct_nontrivial = distinct expansions",
+			"27 go-style for/if/assignment programs (incl. nil / true / false as whole statements) (incl. a label as the first thing of a block after a comment) x 3 layouts against hand-written prefix programs; 6 statements at every offset 0..64 of the text; distinct_nontrivial = distinct expansions",
 		Assumptions: []string{"R3 encodes the binding powers and associativity stated in the property and the documented sign rule for -digit",
 			"texts R3 rejects (two operators in a row ...) are skipped; prefix spelling of selectors, nested blocks and comma is judged by the tree only"},
 		Run: func(c *engine.Ctx) {
@@ -245,6 +250,16 @@ func init() {
 							if c.Mine() {
 								c06case(c, y+" + 1"+sep+x+pf+sep+x, "stmts/"+pf)
 							}
+						}
+					}
+				}
+			}
+			// constants as whole statements: first, middle, last
+			for _, k := range []string{"nil", "true", "false", "0", `""`, "'c'"} {
+				for _, sep := range []string{"; ", "\n", ";"} {
+					for _, t := range []string{"a = 1" + sep + k, k + sep + "a = 1", "a = 1" + sep + k + sep + "b = 2", k, k + sep + k, "a" + sep + k, "a == " + k, "c = " + k + sep + "c"} {
+						if c.Mine() {
+							c06case(c, t, "stmts/const")
 						}
 					}
 				}
